@@ -8,7 +8,7 @@ ID = "C02"
 IMPL_MODULE = "props.enum_impl"
 MODEL_AFTER_IMPL = True
 HASHSEEDS = {"quick": [0, 1], "thorough": [0, 1, 2, 3, 4, 5, 6, 7]}
-CASE_TIMEOUT = 20
+CASE_TIMEOUT = 12
 MAX_LANG = 1500
 RULE = ("random DSLs (families F1-F3) compiled by the real code into depth-bounded CFGs (depth 2-4, n_gram 1-3, forbidden "
         "patterns) or size-bounded TTCFGs (first-order DSLs, size 3-5); weights uniform / random / skewed 10^-k / with ties; "
@@ -16,7 +16,7 @@ RULE = ("random DSLs (families F1-F3) compiled by the real code into depth-bound
         "implementation's own rule table and its full output sequence are handed to the verified checker check_enum (membership "
         "by the model's traversal, duplicate test, length = size of the model's language).  A case is non-trivial when the "
         "language has >= 5 programs and the weights are not uniform.")
-ASSUMPTIONS = ["a run that exceeds the per-case time limit counts as non-termination (limit 20 s; languages have at most 1500 programs); for bee search with non-uniform weights this is the known finding c02_bee_search_blowup and only the produced prefix is checked",
+ASSUMPTIONS = ["a run that exceeds the per-case time limit counts as non-termination (limit 12 s; languages have at most 1500 programs); for bee search with non-uniform weights this is the known finding c02_bee_search_blowup and only the produced prefix is checked",
                "unambiguous-grammar variants of heap/bucket search: see the U-grammar entries"]
 
 
@@ -102,7 +102,7 @@ def classify(case, io, mo):
     if case["enum"] == "bs" and case["weights"]["kind"] != "uniform" and isinstance(io, dict) \
             and io.get("ended") == "timeout" and mo is not None and mo["nodup"] == 1 and mo["members"] == 1:
         return "c02_bee_search_blowup"
-    if case["grammar"]["kind"] == "size" and case["enum"] in ("hs", "hs_bucket") and usable(io) and mo is not None \
+    if case["grammar"]["kind"] == "size" and case["enum"] in ("hs", "hs_bucket") and isinstance(io, dict) and mo is not None \
             and io.get("ended") == "stop" and mo["nodup"] == 1 and mo["members"] == 1 and mo["n_out"] < mo["n_lang"]:
         return "c02_heap_search_ttcfg_incomplete"
     return None
